@@ -224,7 +224,6 @@ Definition entry_c14_tok (a : list str) : list str :=
   | [] => []
   end.
 
-(** args: the encoded AST. result: "1"/"0" for tokenize (show c) = lexemes c, then the lexemes *)
 Definition lexeme_eqb (x y : lexeme) : bool :=
   match x, y with
   | LWord a, LWord b | LOp a, LOp b | LIoNum a, LIoNum b => str_eqb a b
@@ -236,9 +235,93 @@ Fixpoint lexemes_eqb (a b : list lexeme) : bool :=
   | x :: a', y :: b' => lexeme_eqb x y && lexemes_eqb a' b'
   | _, _ => false
   end.
+
+
+(** * Parser model (flat function definitions): encode an AST back to the wire fields *)
+From BV Require Import Print.Separation Print.ParseFlat.
+
+Definition e_fd (fd : option str) : list str := match fd with None => [lit "N"] | Some n => [lit "Y"; n] end.
+Definition e_kind (k : rkind) : str :=
+  match k with RRead => lit "<" | RWrite => lit ">" | RAppend => lit "A" | RReadWrite => lit "B"
+             | RClobber => lit "C" | RDupIn => lit "I" | RDupOut => lit "O" end.
+Definition e_redir (r : redir) : list str :=
+  match r with
+  | RFile fd k t => lit "f" :: e_fd fd ++ [e_kind k; t]
+  | ROutErr w ap => [lit "e"; w; enc_bool ap]
+  | RHereStr fd w => lit "h" :: e_fd fd ++ [w]
+  end.
+Definition e_item (i : item) : list str := match i with IRedir r => lit "r" :: e_redir r | IWord w => [lit "w"; w] end.
+Definition e_items (l : list item) : list str := enc_nat (length l) :: flat_map e_item l.
+Definition e_redirs (rs : option (list redir)) : list str :=
+  match rs with None => [lit "0"] | Some l => lit "R" :: enc_nat (length l) :: flat_map e_redir l end.
+Definition e_words (l : list str) : list str := enc_nat (length l) :: l.
+Definition e_post (p : postact) : str := match p with PBreak => lit "b" | PFall => lit "f" | PCont => lit "c" end.
+
+Fixpoint e_cmd (c : cmd) : list str :=
+  match c with
+  | CSimple pre name suf =>
+      lit "S" :: e_items pre ++ match name with Some w => [lit "Y"; w] | None => [lit "N"] end ++ e_items suf
+  | CCompound k rs => lit "C" :: e_compound k ++ e_redirs rs
+  | CFunction n k rs => lit "F" :: n :: e_compound k ++ e_redirs rs
+  end
+with e_compound (k : compound) : list str :=
+  match k with
+  | KBrace l => lit "B" :: e_clist l
+  | KSubshell l => lit "P" :: e_clist l
+  | KFor v vals b => lit "O" :: v :: match vals with Some l => lit "Y" :: e_words l | None => [lit "N"] end ++ e_clist b
+  | KWhile c b => lit "W" :: e_clist c ++ e_clist b
+  | KUntil c b => lit "U" :: e_clist c ++ e_clist b
+  | KIf c t es => lit "I" :: e_clist c ++ e_clist t ++ e_elses es
+  | KCase w is => lit "K" :: w :: e_citems is
+  end
+with e_pipeline (p : pipeline) : list str :=
+  match p with
+  | Pipe tm bg c r =>
+      match tm with None => lit "0" | Some false => lit "1" | Some true => lit "2" end :: enc_bool bg :: e_cmd c ++ e_cmds r
+  end
+with e_cmds (r : cmds) : list str :=
+  match r with CmdsNil => [lit "."] | CmdsCons c r' => lit "," :: e_cmd c ++ e_cmds r' end
+with e_andor (a : andor) : list str := match a with AndOr p r => e_pipeline p ++ e_aorest r end
+with e_aorest (r : aorest) : list str :=
+  match r with AoNil => [lit "."] | AoCons a p r' => (if a then lit "&" else lit "|") :: e_pipeline p ++ e_aorest r' end
+with e_clist (l : clist) : list str := match l with CList a s r => e_andor a ++ enc_bool s :: e_clrest r end
+with e_clrest (r : clrest) : list str :=
+  match r with ClNil => [lit "."] | ClCons a s r' => lit ";" :: e_andor a ++ enc_bool s :: e_clrest r' end
+with e_elses (es : elses) : list str :=
+  match es with
+  | ElNil => [lit "."]
+  | ElIf c b r => lit "i" :: e_clist c ++ e_clist b ++ e_elses r
+  | ElElse b r => lit "e" :: e_clist b ++ e_elses r
+  end
+with e_citems (is : citems) : list str :=
+  match is with
+  | CiNil => [lit "."]
+  | CiSome ps b po r => lit "s" :: e_words ps ++ e_clist b ++ e_post po :: e_citems r
+  | CiNone ps po r => lit "n" :: e_words ps ++ e_post po :: e_citems r
+  end.
+
+(** args: the encoded AST. result: 1/0 for tokenize (show c) = lexemes c under the regenerated flags, 1/0 for
+    "c is well-formed for these flags" (the hypothesis of show_separates_gen; 0 = inside the class Known
+    when the flags are the unchanged printer's), then the lexemes *)
 Definition entry_c14_sep (a : list str) : list str :=
   match decode_cmd a with
   | Some c => enc_bool (lexemes_eqb (tokenize (show current_flags c)) (lexemes current_flags c))
+              :: enc_bool (ok_cmd current_flags false c)
               :: show_lexemes (lexemes current_flags c)
   | None => [lit "?decode"]
+  end.
+
+(** args: the encoded AST (of the real parser) then, last, the printed text.
+    result: F <0|1> (is the AST a flat function definition, well-formed for the current flags) then the
+    encoding of [parse (tokenize text)] or ?none *)
+Definition entry_c14_parse (a : list str) : list str :=
+  match rev a with
+  | text :: rfields =>
+      let flat := match decode_cmd (rev rfields) with
+                  | Some c => flat_fun c && ok_cmd current_flags false c
+                  | None => false
+                  end in
+      lit "F" :: enc_bool flat ::
+      match parse (tokenize text) with Some c => e_cmd c | None => [lit "?none"] end
+  | [] => [lit "?args"]
   end.
